@@ -277,11 +277,13 @@ def run(binp, tier, scratch, workers=16):
             px.stop()
 
     # ------------------------------------------------------------------ (2) deploy validation before contacting the proxy
-    dims = [("tls", [False, True]), ("host", [False, True]), ("prefix", [None, "/", "/api", "/,/api"]), ("maxreq", [False, True]), ("bufreq", [False, True]), ("maxresp", [False, True]), ("bufresp", [False, True])]
+    dims = [("tls", [False, True]), ("host", [False, True]), ("prefix", [None, "/", "/api", "/,/api"]), ("maxreq", [False, True]), ("bufreq", [False, True]), ("maxresp", [False, True]), ("bufresp", [False, True]),
+            # flags that play no part in the validation must not change its outcome
+            ("extra", [None, "--forward-headers", "--forward-headers=false", "--tls-redirect=false", "--strip-path-prefix=false"])]
     combos = list(itertools.product(*[v for _, v in dims]))
 
     def validate(c):
-        tls, host, prefix, maxreq, bufreq, maxresp, bufresp = c
+        tls, host, prefix, maxreq, bufreq, maxresp, bufresp, extra = c
         d = tempfile.mkdtemp(prefix="kpv-val-", dir=scratch)
         env = {"PATH": os.environ.get("PATH", ""), "HOME": d, "XDG_RUNTIME_DIR": d}
         args = [binp, "deploy", "svc", "--target", "127.0.0.1:9"]
@@ -300,6 +302,8 @@ def run(binp, tier, scratch, workers=16):
             args += ["--max-response-body", "100"]
         if bufresp:
             args.append("--buffer-responses")
+        if extra:
+            args.append(extra)
         rc, out = sh(args, env=env)
         shutil.rmtree(d, ignore_errors=True)
         refuse = []
